@@ -64,8 +64,8 @@ def _check_matches(doc: Any, ms: List[Any]) -> bool:
         ptr = m.pointer()
         text = str(ptr)
         for mode in range(3):
-            if mode == 2 and "\\" in text:
-                continue  # escape decoding on: pointers containing a backslash are outside the property
+            if mode == 2 and "\\" in text and kf("C03-backslash-name-default-decoding"):
+                continue  # listed known finding: the default escape decoding re-reads backslashes in the pointer's text form
             try:
                 p = ptr if mode == 0 else (JSONPointer(text, unicode_escape=False) if mode == 1 else JSONPointer(text))
                 got = p.resolve(doc)
